@@ -165,6 +165,7 @@ def _inline_constants(tree: ast.Module, known: set[str]) -> None:
                 if tbl is not None:
                     consts[tgt.id] = tbl
     cls_consts: dict[ast.ClassDef, dict[str, ast.expr]] = {}
+    stored_attrs = {n.attr for n in ast.walk(tree) if isinstance(n, ast.Attribute) and isinstance(n.ctx, (ast.Store, ast.Del))}
     for c in [n for n in ast.walk(tree) if isinstance(n, ast.ClassDef)]:
         d: dict[str, ast.expr] = {}
         for st in c.body:
@@ -176,9 +177,8 @@ def _inline_constants(tree: ast.Module, known: set[str]) -> None:
             if isinstance(tgt, ast.Name) and _CONST_NAME.match(tgt.id) and tgt.id.startswith("_") and tgt.id not in known and _literal(val):
                 d[tgt.id] = val
         # never assigned through self./cls. anywhere in the module
-        for n in ast.walk(tree):
-            if isinstance(n, ast.Attribute) and isinstance(n.ctx, (ast.Store, ast.Del)) and n.attr in d:
-                d.pop(n.attr)
+        for k_ in [k_ for k_ in d if k_ in stored_attrs]:
+            d.pop(k_)
         if d:
             cls_consts[c] = d
 
